@@ -1,7 +1,98 @@
-(** C08 - placeholder obligations until PathsProofs lands. *)
-From Coq Require Import ZArith List.
-From V Require Import Base Perm PermProofs.
-Theorem C08_inverse_generator_undoes : forall (A : Type) (d : A) p (x : list A), Perm p -> length x = length p ->
-  apply_perm d (inverse_perm p) (apply_perm d p x) = x /\ apply_perm d p (apply_perm d (inverse_perm p) x) = x.
-Proof. exact @inverse_undoes. Qed.
-Print Assumptions C08_inverse_generator_undoes.
+(** C08 - The explicit graph exported from a BFS equals the true Schreier graph. Statements only: every proof is [exact] of a lemma proved elsewhere.
+    Statements about the BFS model with return_all_edges: L i = the true layers (distance classes); edges are pairs of HASHES, which NoColl identifies with states;
+    the renumbering / naming layer (Export.v) is tied to the implementation by the correspondence check.
+    (Statements are the lemmas' closed types as printed by Coq, hence the qualified names.) *)
+From V Require Import Base Tensor Graph GraphProofs GraphImpl Bfs BfsStep BfsProofs BfsEdges.
+
+(* completed run: the edge list is exactly {(v, g v) | v in the orbit, g a generator} *)
+Theorem C08_edges_completed :
+  forall (G : impl) (cfg : bfs_cfg) (U : state -> Prop),
+         closed state (acts G) U ->
+         (forall a b : state, U a -> U b -> hashf G a = hashf G b -> a = b) ->
+         (is_identity G = true -> forall a : state, U a -> unword G (hashf G a) = a) ->
+         (inv_closed G = true -> symmetric_on state (acts G) U) ->
+         BinInt.Z.le (BinNums.Zpos BinNums.xH) (batch_size cfg) ->
+         forall starts : list state,
+         (forall s : state, List.In s starts -> U s) ->
+         starts <> nil ->
+         ret_edges cfg = true ->
+         forall (o : bfs_out) (es : list (BinNums.Z * BinNums.Z)),
+         bfs G cfg starts = Ok o ->
+         completed o = true ->
+         edges o = Some es ->
+         let D := length (sizes o) in
+         forall a b : BinNums.Z,
+         List.In (a, b) es <->
+         (exists (v : state) (g : state -> state) (i : nat),
+            i < D /\
+            List.In v (layer state st_eq_dec (acts G) starts i) /\
+            List.In g (acts G) /\ a = hashf G v /\ b = hashf G (g v)).
+Proof. exact @bfs_edges_completed. Qed.
+Print Assumptions C08_edges_completed.
+
+(* interrupted run: exactly the out-edges of the non-final layers plus the reversals of the last expansion *)
+Theorem C08_edges_interrupted_exact :
+  forall (G : impl) (cfg : bfs_cfg) (U : state -> Prop),
+         closed state (acts G) U ->
+         (forall a b : state, U a -> U b -> hashf G a = hashf G b -> a = b) ->
+         (is_identity G = true -> forall a : state, U a -> unword G (hashf G a) = a) ->
+         (inv_closed G = true -> symmetric_on state (acts G) U) ->
+         BinInt.Z.le (BinNums.Zpos BinNums.xH) (batch_size cfg) ->
+         forall starts : list state,
+         (forall s : state, List.In s starts -> U s) ->
+         starts <> nil ->
+         ret_edges cfg = true ->
+         forall (o : bfs_out) (es : list (BinNums.Z * BinNums.Z)),
+         bfs G cfg starts = Ok o ->
+         completed o = false ->
+         edges o = Some es ->
+         let D := length (sizes o) in
+         2 <= D /\
+         (forall a b : BinNums.Z,
+          List.In (a, b) es <->
+          (exists (v : state) (g : state -> state) (i : nat),
+             i + 1 < D /\
+             List.In v (layer state st_eq_dec (acts G) starts i) /\
+             List.In g (acts G) /\ a = hashf G v /\ b = hashf G (g v)) \/
+          (exists (v : state) (g : state -> state),
+             List.In v (layer state st_eq_dec (acts G) starts (D - 2)) /\
+             List.In g (acts G) /\ a = hashf G (g v) /\ b = hashf G v)).
+Proof. exact @bfs_edges_interrupted_exact. Qed.
+Print Assumptions C08_edges_interrupted_exact.
+
+(* states and hashes of every stored layer are aligned, so vertex k's hash is the hash of row k *)
+Theorem C08_layers_hashes_aligned :
+  forall (G : impl) (cfg : bfs_cfg) (U : state -> Prop),
+         closed state (acts G) U ->
+         (forall a b : state, U a -> U b -> hashf G a = hashf G b -> a = b) ->
+         (is_identity G = true -> forall a : state, U a -> unword G (hashf G a) = a) ->
+         (inv_closed G = true -> symmetric_on state (acts G) U) ->
+         BinInt.Z.le (BinNums.Zpos BinNums.xH) (batch_size cfg) ->
+         forall starts : list state,
+         (forall s : state, List.In s starts -> U s) ->
+         starts <> nil ->
+         ret_edges cfg = true ->
+         forall o : bfs_out,
+         bfs G cfg starts = Ok o ->
+         ret_hashes cfg = true ->
+         forall (k : nat) (l : list state),
+         List.In (k, l) (layers o) -> List.nth k (layer_hashes o) nil = List.map (hashf G) l.
+Proof. exact @bfs_layers_hashes_aligned. Qed.
+Print Assumptions C08_layers_hashes_aligned.
+
+(* with edges requested an edge list is always returned *)
+Theorem C08_edges_some :
+  forall (G : impl) (cfg : bfs_cfg) (U : state -> Prop),
+         closed state (acts G) U ->
+         (forall a b : state, U a -> U b -> hashf G a = hashf G b -> a = b) ->
+         (is_identity G = true -> forall a : state, U a -> unword G (hashf G a) = a) ->
+         (inv_closed G = true -> symmetric_on state (acts G) U) ->
+         BinInt.Z.le (BinNums.Zpos BinNums.xH) (batch_size cfg) ->
+         forall starts : list state,
+         (forall s : state, List.In s starts -> U s) ->
+         starts <> nil ->
+         ret_edges cfg = true ->
+         forall o : bfs_out,
+         bfs G cfg starts = Ok o -> exists es : list (BinNums.Z * BinNums.Z), edges o = Some es.
+Proof. exact @bfs_edges_some. Qed.
+Print Assumptions C08_edges_some.
